@@ -80,6 +80,21 @@ TEXT.update({
             "trusted base: the interpreter's reading of the PTX ISA (self-tested against hand-computed carry cases) and the rewriter; ptxas/SASS, kernels and real devices are out of reach (no GPU, no nvcc)"),
 })
 
+TEXT.update({
+    "C06": ("poseidon", "reference permutation from the spec over the oracle field, inverse-constructed boundary states, interleaved-pair swapping, constant-table monitor",
+            "Scalar, AVX2 and AVX-512 (both lanes of a pair) full-result permutation and capacity hash compared with an independent reference on 8*10^5 (quick) / 6*10^7 (thorough) "
+            "states per build, including states solved backwards so that chosen boundary vectors reach the linear layers; exposes the AVX-512 column-sum defect (F1) when it is reverted.",
+            "spec = reference-form Poseidon with the library's tables; tables pinned by hash; oracle validated by published known answers"),
+    "C07": ("poseidon", "reference sponge for every input length 0..264 (+long), guard-page inputs and sentinel-framed digests",
+            "All three variants compared with the reference sponge for every length, both sides of the <=4 pass-through threshold and every residue mod 8; reads beyond "
+            "the declared length fault on the guard page (or ASan), writes beyond the digest hit the sentinel frame.",
+            "as C06"),
+    "C08": ("poseidon", "reference tree, whole-buffer comparison, exact-size guard-page tree and input buffers, all eight builders",
+            "Every element of the tree buffer compared with a reference binary Poseidon tree for ~4*10^3 (quick) / ~5*10^4 (thorough) shapes incl. one row, zero columns, "
+            "dim 3 and every batch relation; found the one-row AVX-512 overrun (F2) on the pinned tree, fixed in /repo 24e8e4b.",
+            "as C06; power-of-two row counts as the property states"),
+})
+
 NOT_YET = "check not built yet in this revision of /verif (planned, see DESIGN.md section 3)"
 
 
